@@ -237,8 +237,9 @@ impl<T: Value> Var<T> {
                 t.stabilisation_num.get().0
             );
             self.set_at.set(t.stabilisation_num.get());
-            debug_assert!(watch.is_stale());
-            if watch.is_necessary() && !watch.is_in_recompute_heap() {
+            // a var created inside a bind may outlive its (invalidated) watch node
+            debug_assert!(watch.is_stale() || !watch.is_valid());
+            if watch.needs_to_be_computed() && !watch.is_in_recompute_heap() {
                 tracing::info!(
                     "inserting var watch into recompute heap at height {:?}",
                     watch.height()
